@@ -344,7 +344,7 @@ impl Parser {
                             } else if s == "dfs" {
                                 traversal = Dfs;
                                 mode = RootParsingMode::Options;
-                            } else if s.starts_with("regex") {
+                            } else if s.starts_with("regex") || s == "rx" {
                                 regexp = true;
                                 mode = RootParsingMode::Options;
                             } else {
